@@ -929,7 +929,9 @@ impl<'a, W: Write + 'a> ser::SerializeSeq for SeqSerializer<'a, W> {
             SeqSerializerState::Buffer(buf) => buf,
         };
 
-        match se.seq_type {
+        // The sequence type only applies to this sequence; a serializer that is
+        // shared with a following value (map key then value) must not keep it.
+        match se.seq_type.take() {
             None | Some(SequenceType::List) => {
                 write_list(&mut se.writer, num, &buf, &se.is_array_elem)
             }
